@@ -240,4 +240,33 @@ example : (serialize Gen.msgTables (.retArr 7 [])).map (deserializeReturn Gen.ms
       = some (.ok (.retArr 7 [])) ∧
     applyUpds (.retArr 7 []) [Upd.append (some 0)] = .retArr 7 [some 0] := by decide +kernel
 
+/-! ### The declared widths are pinned
+
+"All field values in their declared widths" refers to the pinned formats of `Model/MsgSpec.lean`
+(transcribed once from the pinned tree). The live layouts are kernel-decided to equal them, so the
+round-trip theorems above hold for the pinned widths; a field that /repo silently narrows (e.g. a
+32-bit `app_id` re-declared with a 16-bit type) breaks `msg_layouts_pinned`, and the oracle drives
+the boundary values of the pinned widths (65536, 2^32 − 1, …) through the real code. -/
+
+theorem msg_layouts_pinned : Gen.msgTables.layouts = MsgSpec.tables.layouts
+    ∧ Gen.msgTables.hostDispatch = MsgSpec.tables.hostDispatch
+    ∧ Gen.msgTables.returnDispatch = MsgSpec.tables.returnDispatch
+    ∧ Gen.msgTables.retArrHeader = MsgSpec.tables.retArrHeader
+    ∧ Gen.msgTables.optionalInt = MsgSpec.tables.optionalInt := by
+  have h := MsgObl.msg_layouts_pinned
+  simp only [Bool.and_eq_true, beq_iff_eq] at h
+  exact ⟨h.1.1.1.1.1.1.1.1.1.1, h.1.1.1.1.1.1.1.1.1.2, h.1.1.1.1.1.1.1.1.2, h.1.1.1.2, h.1.1.2⟩
+
+/-- the round trip stated over the PINNED host formats: every pinned class, all values within the
+pinned widths (in particular `app_id` up to 2^32 − 1) -/
+theorem pinned_host_msg_roundtrip (M : MLayout) (hM : M ∈ MsgSpec.tables.layouts)
+    (hdisp : (M.ty, M.lay.cls) ∈ MsgSpec.tables.hostDispatch) (vs : List Int)
+    (hin : allInWidth M.lay.fields ((M.ty : Int) :: vs) = true) :
+    ∃ bs, serialize Gen.msgTables (.fixed M.lay.cls ((M.ty : Int) :: vs)) = some bs ∧
+      deserializeHost Gen.msgTables bs = .ok (.fixed M.lay.cls ((M.ty : Int) :: vs)) := by
+  obtain ⟨h1, h2, _⟩ := msg_layouts_pinned
+  exact host_msg_roundtrip M (h1 ▸ hM) (h2 ▸ hdisp) vs hin
+
+example : allInWidth [⟨"type", 0, 8, false⟩, ⟨"app_id", 32, 32, false⟩] [3, 4294967295] = true := by decide
+
 end NQ.C15
